@@ -142,3 +142,43 @@ def reported(mol):
         if l.startswith('   ') and len(l) > 30 and l[12] == ' ' and l[3:12].strip() and 'Group' not in l:
             out.append(l[3:12])
     return out
+
+
+# -- multi-conformation variants built from the fixtures ------------------------------------
+
+def renumber(txt, start, chain=None):
+    """renumber the residues of a fixture consecutively from `start` (optionally re-chain)"""
+    out, last, cur = [], None, start - 1
+    for l in txt.split('\n'):
+        if l.startswith('ATOM') or l.startswith('HETATM'):
+            key = l[22:27]
+            if key != last:
+                cur += 1
+                last = key
+            l = l[:21] + (chain or l[21]) + '%4d' % cur + ' ' + l[27:]
+        if l:
+            out.append(l)
+    return '\n'.join(out) + '\n'
+
+
+def models(*texts):
+    """several structures as MODEL 1..n of one file"""
+    out = []
+    for i, t in enumerate(texts):
+        out.append('MODEL     %4d\n' % (i + 1))
+        out.append(t if t.endswith('\n') else t + '\n')
+        out.append('ENDMDL\n')
+    return ''.join(out)
+
+
+def altloc(txt, resnum, atom_name, shift=(0.3, 0.2, -0.1)):
+    """give one atom two alternate locations A / B (B displaced by `shift`)"""
+    out = []
+    for l in txt.split('\n'):
+        if l.startswith('ATOM') and int(l[22:26]) == resnum and l[12:16].strip() == atom_name:
+            x, y, z = float(l[30:38]), float(l[38:46]), float(l[46:54])
+            out.append(l[:16] + 'A' + l[17:])
+            out.append(l[:16] + 'B' + l[17:30] + '%8.3f%8.3f%8.3f' % (x + shift[0], y + shift[1], z + shift[2]) + l[54:])
+        elif l:
+            out.append(l)
+    return '\n'.join(out) + '\n'
